@@ -31,6 +31,18 @@ FLOAT_DTYPES = {"'f4'", "'f8'", "'float32'", "'float64'", 'np.float32', 'np.floa
                 'numpy.float64', "'f'", "'d'", 'cupy.float32'}
 
 
+def _is_float_dtype_text(prog, scope, text):
+    """a cast target named by value: `'f4'`, np.float32, np.dtype('float32'), or a module-level / local constant bound to one"""
+    if text in FLOAT_DTYPES:
+        return True
+    from ..sharedrules import float_dtype_expr
+    try:
+        node = ast.parse(text, mode='eval').body
+    except SyntaxError:
+        return False
+    return bool(float_dtype_expr(prog, scope, node))
+
+
 def band_root(expr):
     """`X.data.astype('f4')` -> ('X', [cast dtype texts])"""
     casts = []
@@ -238,7 +250,7 @@ def analyse_index(prog, rep, pub, path, formula_text):
     for p in sorted(arrays):
         cs = casts.get(p, [])
         kcast = _kernel_casts(kern, p)
-        ok = any(c in FLOAT_DTYPES for c in cs) or kcast
+        ok = any(_is_float_dtype_text(prog, pub, c) for c in cs) or kcast
         root = bind.get(p, (None, None))[0]
         rep.add('M3', pub, entry, 'band %s -> kernel parameter %s casts %s' % (root, p, cs), path.call.lineno, ok,
                 'each band must be converted to a floating dtype before the first arithmetic on it (integer '
